@@ -261,10 +261,35 @@ fn presize_unit<S: Spec>(property: &'static str, cases: u32, seed: u64) -> Unit 
 }
 
 /// Without pre-sizing: allocator calls while pushing n items stay logarithmic per storage.
-pub fn run_log<S: Spec>(n: usize, seed_tape: &[u8]) -> Result<(u64, usize), String> {
-    let mut t = Tape::new(seed_tape);
-    let gp = Gp::small();
-    let pool: Vec<S::V> = (0..8).map(|_| S::gen(&mut t, &gp)).collect();
+/// The value pools of the logarithmic series: 0 = small values (fixed tape), 1 = wide values
+/// (fixed pseudo-random tape, unrestricted domain at nesting depth 1), 2 = extreme values (an
+/// all-0xFF tape: maximal lengths, integers at their maximum).
+pub const LOG_POOLS: usize = 3;
+pub fn log_pool<S: Spec>(kind: usize) -> Vec<S::V> {
+    match kind {
+        0 => {
+            let tape = [17u8, 99, 3, 250, 41, 7, 128, 64, 200, 11, 90, 33, 5, 177, 222, 60, 1, 2, 3, 4, 5, 6, 7, 8, 9, 10, 11, 12];
+            let mut t = Tape::new(&tape);
+            let gp = Gp::small();
+            (0..8).map(|_| S::gen(&mut t, &gp)).collect()
+        }
+        k => {
+            let mut x = 0x9E37_79B9u32;
+            let tape: Vec<u8> = (0..2048)
+                .map(|_| {
+                    x = x.wrapping_mul(1_664_525).wrapping_add(1_013_904_223);
+                    if k == 2 { 0xFF } else { (x >> 24) as u8 }
+                })
+                .collect();
+            let mut t = Tape::new(&tape);
+            let gp = Gp { small: false, big: false, depth: 1, mega: false };
+            (0..8).map(|_| S::gen(&mut t, &gp)).collect()
+        }
+    }
+}
+
+pub fn run_log<S: Spec>(n: usize, pool_kind: usize, form: usize) -> Result<(u64, usize), String> {
+    let pool: Vec<S::V> = log_pool::<S>(pool_kind);
     let values: Vec<&S::V> = (0..n).map(|i| &pool[(i * 7 + i / 3) % pool.len()]).collect();
     let owned: Vec<Own<S>> = values.iter().map(|v| S::owned(v)).collect();
     let mut region = S::R::default();
@@ -272,8 +297,7 @@ pub fn run_log<S: Spec>(n: usize, seed_tape: &[u8]) -> Result<(u64, usize), Stri
     let (res, calls, _bytes) = measure(|| {
         guard(|| {
             for o in &owned {
-                let b: RI<'_, S> = IntoOwned::borrow_as(o);
-                let _ = S::push_read(&mut RegionSink(rr), b);
+                let _ = S::push_owned_ref(&mut RegionSink(rr), o, form);
             }
         })
     });
@@ -282,26 +306,35 @@ pub fn run_log<S: Spec>(n: usize, seed_tape: &[u8]) -> Result<(u64, usize), Stri
     Ok((calls, storages))
 }
 
-fn log_unit<S: Spec>(property: &'static str, max_pow: u32) -> Unit {
+fn log_unit<S: Spec>(property: &'static str, max_pow: u32, only_pool: Option<(usize, usize)>) -> Unit {
     let name = format!("alloc-log:{}", S::name());
     let uname = name.clone();
     Unit {
         name,
         run: Box::new(move |p: &mut Partial, _deadline: Instant| {
+          for (pool, form) in (0..LOG_POOLS).flat_map(|p| (0..3usize).map(move |f| (p, f))) {
+            // form: which by-reference input form is pushed (0 the read item, 1 and 2 the
+            // reference forms of the composition, e.g. &Vec<T> and &[T])
+            if only_pool.map_or(false, |o| o != (pool, form)) {
+                continue;
+            }
             let mut prev: Option<(usize, u64)> = None;
-            for pow in (6..=max_pow).step_by(2) {
+            // the wide and extreme pools hold larger values: shorter series
+            let top = if pool == 0 { max_pow } else { max_pow.min(10) };
+            for pow in (6..=top).step_by(2) {
                 let n = 1usize << pow;
-                let tape = [17u8, 99, 3, 250, 41, 7, 128, 64, 200, 11, 90, 33, 5, 177, 222, 60, 1, 2, 3, 4, 5, 6, 7, 8, 9, 10, 11, 12];
                 p.evaluations += 1;
-                match run_log::<S>(n, &tape) {
+                match run_log::<S>(n, pool, form) {
                     Ok((calls, storages)) => {
                         p.classes.hit("log-runs");
+                        p.classes.hit(["log-pool:small", "log-pool:wide", "log-pool:extreme"][pool]);
+                        p.classes.hit(["log-form:read-item", "log-form:ref-1", "log-form:ref-2"][form]);
                         // one growth step per storage and doubling of the input, plus slack for
                         // the first allocations and representation switches
                         let bound = (storages.max(1) as u64) * (pow as u64 + 10) + 8;
-                        p.nontrivial.insert(fnv1a(format!("{uname}:{n}").as_bytes()));
+                        p.nontrivial.insert(fnv1a(format!("{uname}:{pool}:{form}:{n}").as_bytes()));
                         if p.samples.len() < 2 && pow == 10 {
-                            p.samples.push(json!({"engine": "alloc-log", "spec": S::name(), "n": n, "allocator_calls": calls, "storages": storages, "bound": bound}));
+                            p.samples.push(json!({"engine": "alloc-log", "spec": S::name(), "pool": pool, "n": n, "allocator_calls": calls, "storages": storages, "bound": bound}));
                         }
                         if calls > bound {
                             p.violations.push(Violation {
@@ -310,9 +343,9 @@ fn log_unit<S: Spec>(property: &'static str, max_pow: u32) -> Unit {
                                 spec: S::name(),
                                 variant: "log".into(),
                                 signature: signature(property, "alloc-log", "allocator calls exceed the logarithmic bound"),
-                                message: format!("pushing n = {n} plain-data items into a default region called the allocator {calls} times with {storages} storages; the O(log n) per storage bound is {bound}"),
+                                message: format!("pool {pool}, reference form {form}: pushing n = {n} plain-data items into a default region called the allocator {calls} times with {storages} storages; the O(log n) per storage bound is {bound}"),
                                 size: pow as usize,
-                                case: json!({"engine": "alloc-log", "spec": S::name(), "pow": pow}),
+                                case: json!({"engine": "alloc-log", "spec": S::name(), "pow": pow, "pool": pool, "form": form}),
                             });
                             return;
                         }
@@ -326,9 +359,9 @@ fn log_unit<S: Spec>(property: &'static str, max_pow: u32) -> Unit {
                                     spec: S::name(),
                                     variant: "log".into(),
                                     signature: signature(property, "alloc-log", "allocator calls grow faster than logarithmically"),
-                                    message: format!("allocator calls grew from {pc} to {calls} when n went from {} to {n} ({storages} storages; allowed growth {delta_bound})", n / 4),
+                                    message: format!("pool {pool}, reference form {form}: allocator calls grew from {pc} to {calls} when n went from {} to {n} ({storages} storages; allowed growth {delta_bound})", n / 4),
                                     size: pow as usize,
-                                    case: json!({"engine": "alloc-log", "spec": S::name(), "pow": pow}),
+                                    case: json!({"engine": "alloc-log", "spec": S::name(), "pow": pow, "pool": pool, "form": form}),
                                 });
                                 return;
                             }
@@ -341,6 +374,7 @@ fn log_unit<S: Spec>(property: &'static str, max_pow: u32) -> Unit {
                     }
                 }
             }
+          }
         }),
     }
 }
@@ -360,7 +394,7 @@ impl Visitor for Collector {
         let n = S::name();
         // plain-data payload only; the harness-local prefix codec builds a temporary per push
         if !S::CODED && S::HEAP && !n.contains("String>") && !n.contains("Codec<") {
-            self.units.push(log_unit::<S>(self.property, self.max_pow));
+            self.units.push(log_unit::<S>(self.property, self.max_pow, None));
         }
     }
 }
@@ -523,7 +557,7 @@ impl<'a> Visitor for Replayer<'a> {
         if let Some(pow) = self.case.get("pow").and_then(|p| p.as_u64()) {
             // replay of the logarithmic bound: re-run the series up to that n
             let mut p = Partial::default();
-            (log_unit::<S>("C17", pow as u32).run)(&mut p, Instant::now() + std::time::Duration::from_secs(600));
+            (log_unit::<S>("C17", pow as u32, Some((self.case.get("pool").and_then(|p| p.as_u64()).unwrap_or(0) as usize, self.case.get("form").and_then(|p| p.as_u64()).unwrap_or(0) as usize))).run)(&mut p, Instant::now() + std::time::Duration::from_secs(600));
             self.result = Some(match p.violations.first() {
                 Some(v) => Err(v.message.clone()),
                 None => Ok(()),
